@@ -1,2 +1,21 @@
-(* C14.  Theorems are added here as they are proved. *)
-From PJ.Model Require Import Base.
+(* C14 -- namespace declarations round-trip and never affect statements. *)
+From PJ.Model Require Import Base Terms Encoder Streams.
+From PJ.Proofs Require Import EncoderProofs.
+
+(* With the option off the namespace phase does nothing: no declaration row, no table touched. *)
+Theorem C14_off_writes_nothing :
+  forall (always : bool) (d : sdata) (s : stream),
+    p_nd (so_params (st_opts s)) = false -> ns_phase always d s = (s, Ok tt).
+Proof. exact ns_phase_off. Qed.
+Print Assumptions C14_off_writes_nothing.
+
+(* The declared protocol version is 2 exactly when declarations are enabled. *)
+Theorem C14_version_iff_declarations :
+  forall p : sparams, params_version p = 2 <-> p_nd p = true.
+Proof. exact version_iff_declarations. Qed.
+Print Assumptions C14_version_iff_declarations.
+
+(* A namespace IRI loses nothing in the prefix/name split. *)
+Theorem C14_split_iri_lossless : forall iri : str, let '(p, n) := split_iri iri in p ++ n = iri.
+Proof. exact split_iri_app. Qed.
+Print Assumptions C14_split_iri_lossless.
